@@ -1406,6 +1406,11 @@ class Interp:
         if isinstance(target, ast.Attribute):
             base = self.eval(target.value, fr)
             base = self.unopt(base, 'attribute assignment base')
+            if isinstance(base, VAny) and str(base.t).startswith('ext.'):
+                # an attribute of an object made by an unmodelled library call (thread.daemon = True): no effect on
+                # pexpect's own state
+                self.ctx.trust('attribute %s set on the result of an unmodelled external call: ignored' % target.attr)
+                return
             if not isinstance(base, VObj):
                 raise Unsupported('attribute assignment on %r' % (base,))
             h = ctx.heap[base.oid]
